@@ -13,15 +13,16 @@ const ms = int64(1000000)
 
 // Case is what a replay file stores.
 type Case struct {
-	Kind    string `json:"kind"`            // forced | random | close2
-	Point   string `json:"point,omitempty"` // forced: hook point at which a goroutine is parked
-	Op      string `json:"op,omitempty"`    // forced: operation run while it is parked
-	Op2     string `json:"op2,omitempty"`   // forced: second operation run while it is parked
-	Seed    uint64 `json:"seed,omitempty"`  // random
-	Workers int    `json:"workers,omitempty"`
-	Ops     int    `json:"ops,omitempty"`
-	Close   bool   `json:"close,omitempty"`
-	Reenter bool   `json:"reenter,omitempty"`
+	Kind    string   `json:"kind"`            // forced | random | close2
+	Point   string   `json:"point,omitempty"` // forced: hook point at which a goroutine is parked
+	Op      string   `json:"op,omitempty"`    // forced: operation run while it is parked
+	Op2     string   `json:"op2,omitempty"`   // forced: second operation run while it is parked
+	Seed    uint64   `json:"seed,omitempty"`  // random
+	Workers int      `json:"workers,omitempty"`
+	Ops     int      `json:"ops,omitempty"`
+	Close   bool     `json:"close,omitempty"`
+	Reenter bool     `json:"reenter,omitempty"`
+	HeapOps []string `json:"ops,omitempty"` // kind "heap": operations on the queue alone
 }
 
 func (c Case) String() string {
@@ -45,7 +46,7 @@ var Points = []string{
 }
 
 var Ops = []string{
-	"enqNewHead", "enqNonHead", "enqLast", "enqDue", "enqTie", "replHeadEarlier", "replHeadLater", "replHeadSame",
+	"enqNewHead", "enqNonHead", "enqLast", "enqDue", "enqTie", "replHeadEarlier", "replHeadLater", "replHeadLaterStillHead", "replHeadSame",
 	"replNonHeadToHead", "replNonHead", "deqHead", "deqNonHead", "deqAbsent", "close", "advHead", "advAll", "advNone",
 }
 
@@ -63,6 +64,8 @@ func (w *World) doOp(op string) {
 		w.enqueue(2, 10*ms)
 	case "replHeadEarlier":
 		w.enqueue(1, 5*ms)
+	case "replHeadLaterStillHead": // same key, later time, but still earlier than everything else
+		w.enqueue(1, 15*ms)
 	case "replHeadLater":
 		w.enqueue(1, 30*ms)
 	case "replHeadSame":
@@ -396,6 +399,35 @@ func (w *World) runRandom(c Case) {
 	}
 }
 
+// nextLiveTime: the earliest scheduled time after the current clock value among the items that the
+// lock-ordered events say are still queued.
+func (w *World) nextLiveTime() (int64, bool) {
+	now := ns(w.base, w.clk.Now())
+	live := map[int]int{} // key -> id
+	byID := map[int]Ev{}
+	for _, e := range w.events() {
+		switch e.Kind {
+		case "enq":
+			live[e.Key] = e.ID
+			byID[e.ID] = e
+		case "deq":
+			delete(live, e.Key)
+		case "popped":
+			if it, ok := byID[e.ID]; ok && live[it.Key] == e.ID {
+				delete(live, it.Key)
+			}
+		}
+	}
+	best, ok := int64(0), false
+	for _, id := range live {
+		at := byID[id].At
+		if at > now && (!ok || at < best) {
+			best, ok = at, true
+		}
+	}
+	return best, ok
+}
+
 // finish: quiescence check, drain (clock far ahead), quiescence check, Close, final check.
 func (w *World) finish() {
 	w.yieldMu.Lock()
@@ -403,6 +435,19 @@ func (w *World) finish() {
 	w.reenter = nil
 	w.yieldMu.Unlock()
 	if w.settleOr("after-ops") {
+		w.quiet()
+	}
+	// "on time": step the clock to the scheduled time of every item that is still live, one at a
+	// time, and look at the quiescent state each time (an item that is served late shows up here)
+	for i := 0; i < 12; i++ {
+		next, ok := w.nextLiveTime()
+		if !ok {
+			break
+		}
+		w.clk.Advance(w.base.Add(time.Duration(next)))
+		if !w.settleOr("step-drain") {
+			break
+		}
 		w.quiet()
 	}
 	w.clk.Advance(w.clk.Now().Add(time.Second))
